@@ -32,6 +32,9 @@ pub enum Verb {
     LoadState,
     /// two clients, each sending AddCluster concurrently
     TwoClients,
+    /// one client's LoadState stays pending for ever (a task without a deadline) while another
+    /// client's AddCluster waits for the same workers: its own deadline still applies
+    AddClusterBesidePendingLoad,
 }
 
 #[derive(Clone, Debug, serde::Serialize, serde::Deserialize)]
@@ -46,7 +49,7 @@ const WORKER_TIMEOUT_S: u32 = 10;
 
 fn request(v: Verb, tag: &str) -> Request {
     match v {
-        Verb::AddCluster | Verb::TwoClients => RequestType::AddCluster(crate::cfgspace::cluster(tag)).into(),
+        Verb::AddCluster | Verb::TwoClients | Verb::AddClusterBesidePendingLoad => RequestType::AddCluster(crate::cfgspace::cluster(tag)).into(),
         Verb::QueryClustersHashes => RequestType::QueryClustersHashes(QueryClustersHashes {}).into(),
         Verb::SoftStop => RequestType::SoftStop(SoftStop {}).into(),
         Verb::Status => RequestType::Status(Default::default()).into(),
@@ -72,16 +75,17 @@ fn write_state_file() {
 }
 
 pub fn run_case(case: &Case) -> Run {
-    if case.verb == Verb::LoadState {
+    if matches!(case.verb, Verb::LoadState | Verb::AddClusterBesidePendingLoad) {
         write_state_file();
     }
     let clients: Vec<Vec<Request>> = match case.verb {
+        Verb::AddClusterBesidePendingLoad => vec![vec![request(Verb::LoadState, "")], vec![request(Verb::AddCluster, "cb")]],
         Verb::TwoClients => vec![vec![request(Verb::AddCluster, "ca")], vec![request(Verb::AddCluster, "cb")]],
         v => vec![vec![request(v, "c1")]],
     };
     let setup = HubSetup { workers: case.workers.clone(), clients, reverse_worker_order: case.reverse, worker_timeout_s: WORKER_TIMEOUT_S };
     let (mut exec, _) = hub::run_hub(setup, vec![], 120);
-    if case.verb == Verb::LoadState {
+    if matches!(case.verb, Verb::LoadState | Verb::AddClusterBesidePendingLoad) {
         let _ = std::fs::remove_file(state_file());
     }
     let mut violations: Vec<(String, String)> = vec![];
@@ -97,7 +101,14 @@ pub fn run_case(case: &Case) -> Run {
     for (ci, c) in sc.clients.iter().enumerate() {
         // the behaviours that apply to this client's request
         // (a worker that closed its channel while handling an earlier request is gone for this one)
-        let behaviours: Vec<Behaviour> = if case.verb == Verb::LoadState {
+        if case.verb == Verb::AddClusterBesidePendingLoad && ci == 0 {
+            obs.push("client0: load state with a worker that never finishes: not judged".into());
+            continue;
+        }
+        let behaviours: Vec<Behaviour> = if case.verb == Verb::AddClusterBesidePendingLoad {
+            // every request gets the worker's one behaviour, whatever order they arrive in
+            case.workers.iter().map(|w| w.first().copied().unwrap_or(Behaviour::Ok)).collect()
+        } else if case.verb == Verb::LoadState {
             // one client request, two worker requests per worker: all of them count
             case.workers
                 .iter()
@@ -176,7 +187,7 @@ pub fn run_case(case: &Case) -> Run {
             "other"
         };
         let never = case.workers.iter().flatten().any(|b| matches!(b, Behaviour::Silent | Behaviour::ProcessingOnly));
-        if !(matches!(case.verb, Verb::SoftStop | Verb::LoadState) && never) {
+        if !(matches!(case.verb, Verb::SoftStop | Verb::LoadState | Verb::AddClusterBesidePendingLoad) && never) {
             flag(format!("main-process-{end:?}:{ctx}").to_lowercase(), format!("the run ended with {end:?} ({stop_reason})"));
         }
     }
@@ -220,6 +231,15 @@ fn cases(tier: Tier) -> Vec<Case> {
                 for b1 in few {
                     v.push(Case { verb: Verb::LoadState, workers: vec![vec![a0, a1], vec![b0, b1]], reverse: false });
                 }
+            }
+        }
+    }
+    // a request with a deadline next to a task without one: worker 0 never answers anything
+    for never in [Behaviour::Silent, Behaviour::ProcessingOnly] {
+        v.push(Case { verb: Verb::AddClusterBesidePendingLoad, workers: vec![vec![never; 3]], reverse: false });
+        for other in [Behaviour::Ok, Behaviour::Failure, Behaviour::Silent] {
+            for reverse in [false, true] {
+                v.push(Case { verb: Verb::AddClusterBesidePendingLoad, workers: vec![vec![never; 3], vec![other; 3]], reverse });
             }
         }
     }
